@@ -251,7 +251,7 @@ def r14_3(cx):
              'Try>::branch', 'from_residual', '::div_euclid', '::rem_euclid', 'io::Error::other', 'raffle::CheckingParameters::check',
              'OffsetDateTime::unix_timestamp_nanos', 'PlainDateTime::assume_utc', 'OffsetDateTime::now_utc', 'OffsetDateTime::date', 'OffsetDateTime::time',
              'PlainDateTime::new', 'FnOnce::call_once', 'VouchedTime::check', 'VouchedTime::check_or_die', 'VouchedTime::check_vouched_time', 'VouchedTime::new',
-             'wrapping_sub', 'wrapping_add', 'saturating_sub', 'saturating_add', 'abs_diff', 'fmt::Arguments', 'Option::is_some', 'Option::is_none',
+             'wrapping_sub', 'wrapping_add', 'saturating_sub', 'saturating_add', 'abs_diff', 'fmt::Arguments', 'Option::is_some', 'Option::is_none', 'Result::is_ok', 'Result::is_err',
              'convert::TryFrom<i128>>::try_from', 'convert::TryFrom<u128>>::try_from', 'convert::TryFrom<i64>>::try_from', 'convert::TryFrom<u64>>::try_from')
     for f in (new, now, check, window):
         unk = sorted({cs.callee for cs in f.calls() if not cs.t.get('exp') and not any(t in cs.callee for t in TOTAL)})
